@@ -91,3 +91,11 @@ Example C14_sqlite_prefix_agrees_somewhere :
   /\ prefix_agrees "x" [] [CreateTable "t" [idcol; mkCol "e" (TEnum "lvl" (EVString ["a"; "b"])) true None None None None None None]
                                        [pk_id; CCheck "chk_pos" "id > 0"]] = true.
 Proof. repeat split; vm_compute; reflexivity. Qed.
+
+(* a table the project itself calls "…_temp": its enum CHECK derives from the full name (chk_item_temp__e), which the
+   prefixed project renames like every other derived name; a later rebuild of that table uses "item_temp_temp" *)
+Example C14_sqlite_prefix_agrees_table_named_temp :
+  prefix_agrees "app_" [] [CreateTable "item_temp" [idcol; mkCol "e" (TEnum "lvl" (EVString ["a"; "b"])) true None None None None None None]
+                                       [pk_id; CForeignKey None ["id"] "item_temp" ["id"] None None];
+                           ModifyColumnNullable "item_temp" "e" false (Some "'a'")] = true.
+Proof. vm_compute; reflexivity. Qed.
